@@ -387,6 +387,28 @@ func c12R3(p *Prog, r *Report, sites []*relaySite) {
 			so := sswap.ResultVar(0)
 			// argument is the entry's serverConn (a non-nil marker)
 			r.Check(strings.HasSuffix(exprStr(sswap.Call.Args[0]), ".serverConn"), rule, st.Name+":swap-marker", sswap.Pos(), "the marker swapped in is the (non-nil) server socket", "Stop swaps in "+exprStr(sswap.Call.Args[0]))
+			// the marker is only a marker when it is never nil: every entry of this type is given the
+			// marker field where it is put together (a nil marker makes Stop's claim invisible to a
+			// session that is still initialising, which then starts and is waited for a full NAT timeout)
+			if msel, okm := ast.Unparen(sswap.Call.Args[0]).(*ast.SelectorExpr); okm {
+				if et := sinfo.TypeOf(msel.X); et != nil {
+					if pt, isP := et.Underlying().(*types.Pointer); isP {
+						et = pt.Elem()
+					}
+					etName := namedTypeName(et)
+					nBuilt := 0
+					p.AllFuncs(pkg, func(top *FuncCtx) {
+						for _, bc := range allCtxs(p, top) {
+							for _, bv := range builtValues(bc, etName) {
+								nBuilt++
+								val, has := bv.Fields[msel.Sel.Name]
+								r.Check(has && !isNilExpr(bc.Info(), val), rule, fmt.Sprintf("%s:stop-marker-set:%s.%s", bc.Name, etName, msel.Sel.Name), p.posStr(bv.Pos), "the entry is given the stop marker when it is created", "a "+etName+" is created without its "+msel.Sel.Name+" field: Stop swaps that (nil) field into the session state as its claim, a session still initialising sees nil, starts its relay goroutines and Stop waits for a full NAT timeout")
+							}
+						}
+					})
+					r.Check(nBuilt > 0, rule, st.Name+":entries-constructed", sswap.Pos(), "the construction sites of the entry type were found", "no construction site of "+etName+" found")
+				}
+			}
 			// deadline forcing only on non-nil
 			for _, cs := range st.AllCalls() {
 				if cs.Fn != nil && cs.Fn.Name() == "SetReadDeadline" {
